@@ -132,6 +132,35 @@ Theorem C14_forwarded_packages : forall deps fwd pkgs f user upkgs P,
 Proof. exact link_pkgs_spec. Qed.
 Print Assumptions C14_forwarded_packages.
 
+(* -- token level.  An OStr element is one argv token; a multi-token option (-u SYM, -Xlinker --defsym
+      -Xlinker NAME=VALUE) is a run of OStr elements.  Every run of string tokens in the link options of a
+      reachable forwarding library - and in the link options of an own or forwarded package, and in the
+      link step's own options - occurs as a contiguous block, tokens in order, in the final option list
+      and in the option part of the argv (opt_flags: CcLinker.flags passes strings through in order);
+      for every forwarding graph on which the recursion ends, both variants of Link.__init__ *)
+Theorem C14_forwarded_tokens_preserved : forall deps fwd lopts pkgs pkgopts fixed f user upkgs uopts O,
+  final_opts deps fwd lopts pkgs pkgopts fixed f user upkgs uopts = Some O ->
+  forall s, forallb is_ostr s = true ->
+    (exists x, reach deps fwd user x /\ fwd x = true /\ block s (lopts x)) \/
+    (exists p, block s (pkgopts p) /\
+               (In p upkgs \/ exists x, reach deps fwd user x /\ fwd x = true /\ In p (pkgs x))) \/
+    block s uopts ->
+    block s O /\ block s (opt_flags O).
+Proof. exact final_opts_tokens. Qed.
+Print Assumptions C14_forwarded_tokens_preserved.
+
+(* the exact law behind it: option_list never de-duplicates strings.  The string tokens of the final
+   option list are, in order and with multiplicity, those of the package options, of the link options of
+   every visit of ForwardOptions.recurse (a library reachable along two paths forwards twice) and of the
+   user's own options *)
+Theorem C14_string_options_exact : forall deps fwd lopts pkgs pkgopts fixed f user upkgs uopts O v,
+  visits deps fwd f user = Some v ->
+  final_opts deps fwd lopts pkgs pkgopts fixed f user upkgs uopts = Some O ->
+  filter is_ostr O = filter is_ostr (flat_map pkgopts (upkgs ++ fwd_pkgs pkgs v)) ++
+                     filter is_ostr (flat_map lopts v) ++ filter is_ostr uopts.
+Proof. exact final_opts_strings. Qed.
+Print Assumptions C14_string_options_exact.
+
 (* -- run-time search path *)
 Theorem C14_rpath_relative : forall lib out, exists rest, local_rpath lib out = origin_s ++ rest.
 Proof. exact rpath_relative. Qed.
@@ -181,6 +210,34 @@ Example ex_recurse : p_recurse_libs false false wproj 3 false = Some [lb; lc; lb
 Proof. vm_compute. reflexivity. Qed.
 (* too little fuel is reported, not silently truncated *)
 Example ex_fuel : final_libs (p_deps false false wproj) p_fwd true 2 (p_user false false wproj 3 false) = None.
+Proof. vm_compute. reflexivity. Qed.
+(* token level: core; plug_a -> {core} forwarding -u reg_a; plug_b -> {core} forwarding -u reg_b;
+   host -> {plug_a, plug_b, core}; the executable -> {host} with its own -Xlinker --defsym -Xlinker x=1.
+   Tokens: 5 is -u, 6 reg_a, 7 reg_b, 8 -Xlinker, 9 --defsym, 10 x=1.  Nothing is lost although -u and
+   -Xlinker repeat across libraries and inside one option *)
+Definition onode (deps : list (nat * bool)) (lo : list opt) : pnode :=
+  {| pn_kind := PStatic; pn_deps := deps; pn_lopts := lo; pn_pkgs := []; pn_dir := []; pn_uses := [] |}.
+Definition plugproj : list pnode :=
+  [ onode [] []; onode [(0, false)] [OStr 5; OStr 6]; onode [(0, false)] [OStr 5; OStr 7];
+    onode [(1, false); (2, false); (0, false)] [];
+    onode [(3, false)] [OStr 8; OStr 9; OStr 8; OStr 10] ]%nat.
+Example ex_plugin_flags : p_final_flags false false plugproj (fun _ => []) true 4 =
+  Some [OStr 5; OStr 6; OStr 5; OStr 7; OStr 8; OStr 9; OStr 8; OStr 10].
+Proof. vm_compute. reflexivity. Qed.
+Example ex_plugin_hyp : reach (p_deps false false plugproj) p_fwd (p_user false false plugproj 4 false) (enc_lib 2 VStatic) /\
+  p_fwd (enc_lib 2 VStatic) = true /\ block [OStr 5; OStr 7] (p_lopts plugproj (enc_lib 2 VStatic)) /\
+  forallb is_ostr [OStr 5; OStr 7] = true.
+Proof.
+  split; [|split; [reflexivity|split; [exists [], []; reflexivity|reflexivity]]].
+  apply reach_step with (x := enc_lib 3 VStatic); [apply reach_base; vm_compute; tauto|reflexivity|vm_compute; tauto].
+Qed.
+(* a diamond: d forwards -u s and is reachable along two paths, so the block is on the line twice
+   (strings are not de-duplicated; an option object such as OObj 0 is kept once) *)
+Definition diamond : list pnode :=
+  [ onode [] [OStr 5; OStr 6; OObj 0]; onode [(0, false)] []; onode [(0, false)] [OObj 0];
+    onode [(1, false); (2, false)] [] ]%nat.
+Example ex_diamond_flags : p_final_flags false false diamond (fun _ => []) true 3 =
+  Some [OStr 5; OStr 6; OObj 0; OStr 5; OStr 6].
 Proof. vm_compute. reflexivity. Qed.
 (* rpath: exe in bin/, library in lib/sub/ *)
 Example ex_rpath :
